@@ -1,5 +1,6 @@
 import CE.Rules.Machine
 import CE.Rules.Table
+import CE.Rules.Keys
 /-
   C12 — duplicate map keys are rejected whatever encoding they use.
 
@@ -12,6 +13,11 @@ import CE.Rules.Table
       duplicate, no false duplicate, for every combination of forms and every magnitude.
   (2) the machine stores `NormKey.int (denote e)` (the abstraction justified by (1)) and
       `notifyKey` rejects exactly the keys already present.
+  (3) lifted to whole documents: `no_container_holds_two_equal_keys` - in EVERY state the validator
+      reaches on any event stream, the normalised keys registered for the current container and
+      for every enclosing container are pairwise distinct (an invariant over `run`,
+      CE/Rules/Keys.lean: case analysis over all 45 statement kinds, nested rule calls, every
+      event; entering a container starts an empty key list, leaving it restores the outer one).
   Strings/resource IDs (whole or chunked), UIDs and booleans are compared by contents in the
   model (`keyOfArray`, `notifyKeyOfBuilt`, `uidKey`); time keys are compared through the
   external `Time.String()` and are covered by correspondence only.
@@ -97,5 +103,11 @@ example : normalize (.neg 5) = normalize (.int (-5)) ∧
     normalize (.neg (2 ^ 63 + 1)) = normalize (.big (-(2:Int) ^ 63 - 1)) ∧
     normalize (.neg 0) = normalize (.pos 0) ∧
     normalize (.pos 5) ≠ normalize (.neg 5) := by decide
+
+/-- on any stream, accepted or not: no open container holds two equal (normalised) keys -/
+theorem no_container_holds_two_equal_keys (env : Env) (evs : List Ev) :
+    let s := (run env RState.init evs 0).2.2
+    s.cur.keys.Nodup ∧ ∀ e ∈ s.stack, e.keys.Nodup :=
+  run_keys env evs RState.init 0 ⟨by simp [RState.init], by simp [RState.init]⟩
 
 end CE.Props.C12
